@@ -549,6 +549,37 @@ def run(facts, tier):
     # ---------------- T2.10 index filters see the input of the whole term
     rules.append(rule_index_input(facts, "T2.10").finish())
 
+    # ---------------- T2.11 each path part is applied with its own `?`
+    t11 = Rule("T2.11", "where `jaq_core::path` applies a path part (`Part::run/paths/update`) together with an optionality, the two come from the same `(part, opt)` pair -- bound by one "
+               "tuple pattern, or the two fields of one tuple: `.a?.b` must not treat `.a` with the optionality of `.b` (or the other way round)", floor=1)
+
+    def first_place(e):
+        e = strip(e)
+        while e.get("k") in ("Unary", "AddrOf", "Deref") and (e.get("e") or e.get("x")):
+            e = strip(e.get("e") or e.get("x"))
+        if e.get("k") == "Path" and "local" in (e.get("path") or {}):
+            return ("local", e["path"]["id"])
+        if e.get("k") == "Field" and strip(e["e"]).get("k") == "Path" and "local" in (strip(e["e"]).get("path") or {}):
+            return ("field", strip(e["e"])["path"]["id"], e.get("name"))
+        return None
+    for f_ in facts.hir("jaq_core"):
+        if not f_["def"].startswith("jaq_core::path::") or f_.get("test"):
+            continue
+        tuples = [{b_["id"] for b_ in find(t_, lambda n: n.get("k") == "Bind")} for t_ in find(f_["body"], lambda n: n.get("k") == "Tuple" and "pats" in n)]
+        for mc in find(f_["body"], lambda n: n.get("k") == "MethodCall" and re.search(r"path::Part<", n.get("recv_ty") or "")):
+            opts = [a_ for a_ in mc["args"] if (strip(a_).get("ty") or "").lstrip("&") == "jaq_core::path::Opt"]
+            if not opts:
+                continue
+            r_, o_ = first_place(mc["recv"]), first_place(opts[0])
+            if r_ is None or o_ is None or r_[0] != o_[0]:
+                t11.examined(("part-opt", f_["def"], mc["sp"]), False)
+                continue
+            same = (r_[1] == o_[1]) if r_[0] == "field" else any({r_[1], o_[1]} <= t_ for t_ in tuples)
+            t11.examined(("part-opt", f_["def"], mc["sp"]), True, {"fn": f_["def"], "method": mc["m"]["name"], "part_and_opt_from_one_pair": same})
+            if not same:
+                t11.violate(f"pairing/{f_['def']}/{mc['m']['name']}", f"`{f_['def']}` applies a path part with the optionality of another part (`{mc['m']['name']}`): `try`-ness of `.a?.b` lands on the wrong component", where=mc["sp"])
+    rules.append(t11.finish())
+
     # ---------------- T2.7 native twins
     t7 = Rule("T2.7", "the natives that exist in a value and a path version (first, last, limit, skip) are the same code up to the evaluator they call", floor=4)
     f = facts.hir_fn("jaq_core::funs::paths")
